@@ -44,6 +44,12 @@ def _name_of(node):
     if isinstance(node, ast.Attribute):
         b = _name_of(node.value)
         return None if b is None else b + '_' + node.attr
+    if isinstance(node, ast.Call) and not node.args and not node.keywords and isinstance(node.func, ast.Attribute):
+        return _name_of(node.func)          # x.stat().st_size -> x_stat_st_size (an opaque integer read from the environment)
+    if isinstance(node, ast.Call) and isinstance(node.func, ast.Attribute) and node.func.attr == 'get' and len(node.args) == 1 \
+            and isinstance(node.args[0], ast.Constant) and isinstance(node.args[0].value, str) and not node.keywords:
+        b = _name_of(node.func.value)
+        return None if b is None else b + '_' + node.args[0].value
     return None
 
 
@@ -86,8 +92,11 @@ class FnTranslator:
         self.fn = fn_node
         self.events = events or []       # list of (regex on ast.unparse(call), tag, [python expr strings])
         self.aux = []                    # auxiliary loop definitions (lean text), emitted before the main def
+        self.loop_cache = {}
         self.loopn = 0
         self.assigned = self._assigned_names(fn_node)
+        a = fn_node.args
+        self.argnames = {x.arg for x in a.posonlyargs + a.args + a.kwonlyargs}
         self.param_order = param_order
         self.notes = []
 
@@ -153,6 +162,10 @@ class FnTranslator:
             from fractions import Fraction
             fr = Fraction(repr(node.value))
             return (f'({fr.numerator})', None) if fr.denominator == 1 else (f'({fr.numerator})', f'({fr.denominator})')
+        nm = _name_of(node) if isinstance(node, (ast.Name, ast.Attribute, ast.Call)) else None
+        if nm is not None and nm in self.fraction_params and nm not in env.vars:
+            a, b = self.fraction_params[nm]
+            return self.param(env, a), self.param(env, b)
         return self.expr(node, env), None
 
     def expr(self, node, env):
@@ -165,8 +178,12 @@ class FnTranslator:
             if isinstance(node.value, float) and float(node.value).is_integer():
                 return str(int(node.value))
             raise Untranslatable(f'constant {node.value!r}')
-        nm = _name_of(node) if isinstance(node, (ast.Name, ast.Attribute)) else None
+        nm = _name_of(node) if isinstance(node, (ast.Name, ast.Attribute, ast.Call)) else None
+        if nm is not None and isinstance(node, ast.Call) and (_callname(node) is not None and node.args):
+            nm = None
         if nm is not None:
+            if nm in self.fraction_params:
+                raise Untranslatable(f'{nm} is a fraction used as an integer')
             if nm in env.vars:
                 v = env.vars[nm]
                 if isinstance(v, list):
@@ -175,6 +192,18 @@ class FnTranslator:
             if nm in env.dropped or (nm in self.assigned):
                 raise Untranslatable(f'{nm} is assigned by a statement outside the integer skeleton')
             return self.param(env, nm)
+        if isinstance(node, ast.Call) and isinstance(node.func, ast.Attribute) and node.func.attr in ('astype', 'item', 'copy') \
+                and not (isinstance(node.func.value, ast.Name) and node.func.value.id in NP):
+            if node.func.attr == 'astype' and not (node.args and ast.unparse(node.args[0]) in ('int', 'np.int64', 'np.int32', 'np.intp', "'int'", "'int64'")):
+                raise Untranslatable('astype to a non-integer type: ' + ast.unparse(node))
+            return self.expr(node.func.value, env)
+        if isinstance(node, ast.Attribute) and node.attr == 'values':
+            return self.expr(node.value, env)
+        if isinstance(node, ast.Subscript) and isinstance(node.slice, ast.Constant) and isinstance(node.slice.value, str):
+            base = _name_of(node.value)
+            if base is None or base in env.dropped or base in self.assigned:
+                raise Untranslatable('subscript ' + ast.unparse(node))
+            return self.param(env, f'{base}_{node.slice.value}')
         if isinstance(node, ast.Subscript):
             base = _name_of(node.value)
             idx = node.slice
@@ -249,6 +278,10 @@ class FnTranslator:
 
     def test(self, node, env):
         """boolean test -> lean Prop text (decidable)"""
+        src = ast.unparse(node)
+        for rx, val in self.assume.items():
+            if re.fullmatch(rx, src):
+                return 'True' if val else 'False'
         if isinstance(node, ast.Compare):
             parts, left = [], node.left
             for op, right in zip(node.ops, node.comparators):
@@ -387,6 +420,18 @@ class FnTranslator:
             if base in env.vars:
                 raise Untranslatable('subscript assignment to tracked scalar ' + str(base))
             return False
+        if isinstance(tgt, ast.Name) and isinstance(stmt.value, ast.BoolOp) and isinstance(stmt.value.op, ast.Or) \
+                and isinstance(stmt.value.values[0], ast.Name) and stmt.value.values[0].id == tgt.id \
+                and tgt.id in self.argnames and tgt.id not in env.vars and tgt.id not in env.dropped:
+            # `arg = arg or <default>`: read as "the argument was given" (recorded assumption)
+            env.vars[tgt.id] = self.param(env, tgt.id)
+            self.notes.append(f'{tgt.id} = {tgt.id} or ...: the argument is taken as given')
+            return True
+        if isinstance(tgt, ast.Tuple) and isinstance(stmt.value, ast.Name) and stmt.value.id in self.argnames \
+                and stmt.value.id not in self.assigned and all(isinstance(e, ast.Name) for e in tgt.elts):
+            for k_, e in enumerate(tgt.elts):
+                env.vars[e.id] = self.param(env, f'{stmt.value.id}_{k_}')
+            return True
         if isinstance(tgt, ast.Tuple):
             names = [_name_of(e) for e in tgt.elts]
             if isinstance(stmt.value, ast.Tuple) and len(stmt.value.elts) == len(names) and all(names):
@@ -527,17 +572,21 @@ class FnTranslator:
         if isinstance(s, (ast.Assign, ast.AugAssign)):
             lets = []
             self.assign(s, env, lets)
-            return ''.join(l + '\n' for l in lets) + cont(env)
+            return ''.join(l + ';\n' for l in lets) + cont(env)
         if isinstance(s, ast.If):
             if self.is_simple(s.body, env) and self.is_simple(s.orelse, env):
                 lets = []
                 self.simple_if(s, env, lets)
-                return ''.join(l + '\n' for l in lets) + cont(env)
+                return ''.join(l + ';\n' for l in lets) + cont(env)
             try:
                 cond = self.test(s.test, env)
             except Untranslatable:
                 raise Untranslatable('control flow / events under an untranslatable test: ' + ast.unparse(s.test))
             e1, e2 = env.copy(), env.copy()
+            if cond == 'True':
+                return self.block(list(s.body), e1, lambda e: self.block(rest, e, k, mode), mode)
+            if cond == 'False':
+                return self.block(list(s.orelse), e2, lambda e: self.block(rest, e, k, mode), mode)
             t1 = self.block(s.body, e1, lambda e: self.block(rest, e, k, mode), mode)
             t2 = self.block(s.orelse, e2, lambda e: self.block(rest, e, k, mode), mode)
             return f'(if {cond} then\n{t1}\nelse\n{t2})'
@@ -572,6 +621,8 @@ class FnTranslator:
     loop_again = []
     generators = {}
     generators_elem = {}
+    fraction_params = {}
+    assume = {}
     needs_fuel = False
 
     def carried(self, body, env):
@@ -585,9 +636,18 @@ class FnTranslator:
     def loop(self, s, rest, env, k, mode, pre=None):
         if mode != 'list':
             raise Untranslatable('loop in a value function')
+        carried = self.carried(s.body, env)
+        key = (id(s), tuple(carried), tuple(sorted(t for t in env.vars)))
+        if key in self.loop_cache:
+            lname = self.loop_cache[key]
+            flat = []
+            for t in carried:
+                v = env.vars[t]
+                flat += v if isinstance(v, list) else [v]
+            return f'{lname} §PARAMS§ §CONSTS:{lname}§ fuel ' + ' '.join(flat)
         self.loopn += 1
         lname = f'{self.fname}_loop{self.loopn}'
-        carried = self.carried(s.body, env)
+        self.loop_cache[key] = lname
         flat = []
         for t in carried:
             v = env.vars[t]
@@ -702,7 +762,8 @@ class FnTranslator:
         return list(params)
 
     def render(self, name, env, txt, mode, rtype=None):
-        params = self.order_params(env.params)
+        blob = txt + ''.join(b for _, _, _, b in self.aux)
+        params = [p_ for p_ in self.order_params(env.params) if re.search(r'(?<![\w.])' + re.escape(p_) + r'(?![\w])', blob)]
         ptxt = ' '.join(params)
         pdecl = f'({ptxt} : Int)' if params else ''
         out = []
@@ -773,6 +834,8 @@ def translate_item(src_root, item):
     tr.fname = item['name']
     tr.generators = dict(item.get('_generators', {}))
     tr.generators_elem = dict(item.get('_generators_elem', {}))
+    tr.fraction_params = dict(item.get('fractions', {}))
+    tr.assume = dict(item.get('assume', {}))
     if 'elem' in item:
         tr.elem_type = item['elem']
     if 'value' in item:
@@ -799,38 +862,38 @@ def translate_item(src_root, item):
         val = stmt.value
         if isinstance(stmt, ast.AugAssign):
             val = ast.BinOp(left=stmt.target, op=stmt.op, right=stmt.value)
-        txt = tr.value(val, env)
+        if item.get('fraction'):
+            n_, d_ = tr.rat(val, env)
+            txt = f'({n_}, {d_ if d_ is not None else 1})'
+        else:
+            txt = tr.value(val, env)
         used = _prune_lets(lets, txt)
-        return tr.render(item['name'], env, ''.join(l + '\n' for l in used) + txt, 'value')
+        return tr.render(item['name'], env, ''.join(l + ';\n' for l in used) + txt, 'value')
     if kind == 'block':
-        chain = _path_to_assignment(fn, item['from_target'], item.get('occurrence', 0))
-        if chain is None:
-            raise Untranslatable(f'no assignment to {item["from_target"]} in {item["function"]}')
+        # the simple statements of the function body, from its start up to (not including) the first statement whose source
+        # matches `until` (default: the whole body); statements that are not simple (loops, returns, with ...) are skipped and
+        # whatever they assign is marked as outside the skeleton
         env = Env([])
         lets = []
-        for blk, idx in chain[:-1]:
-            pre = [s for s in blk[:idx] if tr.is_simple([s], env) and not isinstance(s, (ast.FunctionDef, ast.ClassDef))]
-            tr.simple_block(pre, env, lets)
-        blk, idx = chain[-1]
-        pre = [s for s in blk[:idx] if tr.is_simple([s], env) and not isinstance(s, (ast.FunctionDef, ast.ClassDef))]
-        tr.simple_block(pre, env, lets)
-        n = item.get('statements')
-        seg = blk[idx: idx + n] if n else blk[idx:]
-        if not n:
-            # up to (not including) the first non-simple statement
-            cut = len(seg)
-            for j, s in enumerate(seg):
-                if not tr.is_simple([s], env):
-                    cut = j
-                    break
-            seg = seg[:cut]
-        tr.simple_block(seg, env, lets)
+        until = item.get('until')
+        for st in body:
+            if isinstance(st, (ast.FunctionDef, ast.ClassDef)):
+                continue
+            if until and re.search(until, ast.unparse(st)):
+                break
+            if tr.is_simple([st], env):
+                tr.simple_block([st], env, lets)
+            else:
+                for nm in tr.targets_of([st]):
+                    if nm in env.vars:
+                        raise Untranslatable(f'tracked variable {nm} is assigned inside a skipped statement')
+                    env.dropped.add(nm)
         outs = []
         for o in item['outputs']:
             outs.append(tr.value(ast.parse(o, mode='eval').body, env))
         txt = '(' + ', '.join(outs) + ')' if len(outs) > 1 else outs[0]
         used = _prune_lets(lets, txt)
-        return tr.render(item['name'], env, ''.join(l + '\n' for l in used) + txt, 'value')
+        return tr.render(item['name'], env, ''.join(l + ';\n' for l in used) + txt, 'value')
     raise ValueError(kind)
 
 
@@ -872,7 +935,7 @@ GENERATED by harness/pyfn2lean.py from the CURRENT text of /repo/src on every ru
 Each definition is the integer skeleton of the named source function (see the translator's docstring for the mapping).
 -/
 import IblVerif.Tie.PyPrelude
-namespace IblVerif.Src
+namespace IblVerif.Src.§GROUP§
 open IblVerif.Tie
 '''
 
@@ -894,7 +957,7 @@ def generate(src_root, items, out_path, group):
             res[it['name']] = (False, f'{it["function"]}: not in the translatable subset: {e}', [])
         except (SyntaxError, OSError, KeyError, IndexError, AttributeError, TypeError, ValueError) as e:
             res[it['name']] = (False, f'{it["function"]}: {type(e).__name__}: {e}', [])
-    text = HEADER + '\n' + '\n'.join(chunks) + '\nend IblVerif.Src\n'
+    text = HEADER.replace('§GROUP§', group) + '\n' + '\n'.join(chunks) + f'\nend IblVerif.Src.{group}\n'
     out_path = Path(out_path)
     out_path.parent.mkdir(parents=True, exist_ok=True)
     if not out_path.exists() or out_path.read_text() != text:
